@@ -53,6 +53,7 @@ type req struct {
 	B       []val           `json:"b"`
 	ErrMode string          `json:"errmode"`
 	Verbose bool            `json:"verbose"`
+	CtxDone bool            `json:"ctxdone"`
 	Raw     json.RawMessage `json:"raw"`
 }
 
@@ -217,7 +218,7 @@ type fRes struct {
 	Run     *runRes `json:"run,omitempty"`
 }
 
-func doF(target interface{}, args []interface{}) (res fRes) {
+func doF(target interface{}, args []interface{}, ctxDone bool) (res fRes) {
 	var f mg.Fn
 	func() {
 		defer func() {
@@ -247,7 +248,14 @@ func doF(target interface{}, args []interface{}) (res fRes) {
 				rr.Msg = fmt.Sprint(v)
 			}
 		}()
-		err := f.Run(theCtx)
+		runCtx := theCtx
+		if ctxDone {
+			// Run is handed a context that is already done: it still calls the function once, with that context
+			c, cancel := context.WithCancel(theCtx)
+			cancel()
+			runCtx = c
+		}
+		err := f.Run(runCtx)
 		switch {
 		case err == nil:
 			rr.Err = "nil"
@@ -337,7 +345,7 @@ func main() {
 			default:
 				target = pool[r.Fn]
 			}
-			ans = doF(target, vals(r.Args))
+			ans = doF(target, vals(r.Args), r.CtxDone)
 		case "pair":
 			poolErr = nil
 			if r.Verbose {
